@@ -328,10 +328,10 @@ Qed.
 
 (** what the handlers asked have been offered, innermost first: the chain
     [e], then the error answer of each handler in turn *)
-Fixpoint chain (e : err) (act : list hst) : list err :=
+Fixpoint offer_chain (e : err) (act : list hst) : list err :=
   match act with
   | [] => []
-  | h :: rest => e :: match fst (on_error h e) with Fail c => chain (ECode c) rest | Replace _ => [] end
+  | h :: rest => e :: match fst (on_error h e) with Fail c => offer_chain (ECode c) rest | Replace _ => [] end
   end.
 Fixpoint grow (hs : list hst) (es : list err) : list (list hev) :=
   match hs, es with
@@ -343,13 +343,13 @@ Fixpoint grow (hs : list hst) (es : list err) : list (list hev) :=
     others none *)
 Theorem escalate_logs : forall act e r passed act',
   escalate e act = (r, passed, act') ->
-  map h_log (passed ++ act') = grow act (chain e act) \/
-  (fst r = None /\ act' = [] /\ map h_log passed = grow act (chain e act)).
+  map h_log (passed ++ act') = grow act (offer_chain e act) \/
+  (fst r = None /\ act' = [] /\ map h_log passed = grow act (offer_chain e act)).
 Proof.
   induction act as [|h rest IH]; intros e r passed act' He; cbn [escalate] in He.
   - inv He. left. reflexivity.
   - pose proof (on_error_log h e) as Hl. destruct (on_error h e) as [a h'] eqn:Ho. cbn [snd] in Hl.
-    cbn [chain grow]. rewrite Ho. cbn [fst].
+    cbn [offer_chain grow]. rewrite Ho. cbn [fst].
     destruct a as [b|c].
     + inv He. left. cbn [app map]. rewrite Hl. f_equal. destruct rest; reflexivity.
     + destruct (escalate (ECode c) rest) as [[r0 p] a'] eqn:Hr. inv He.
